@@ -94,7 +94,9 @@ func (p *Parser) pcExpr(minprec int8) ast.Expr {
 					p.assignName = name
 					if ascii.IsLower(name[0]) {
 						assignToLocal = name
-						p.final[name]++
+						if p.final[name] < disqualified {
+							p.final[name]++ // saturate, uint8 would wrap at 256
+						}
 					}
 				} else {
 					p.final[name] = disqualified
